@@ -109,28 +109,31 @@ def nested_worlds():
     out = []
     for ns_path in (['n'], ['o', 'n'], ['o', 'n', 'm']):
         full_ns = '::'.join(ns_path)
-        for group in (None, 'g', 'g:h'):
-            local = f'{group}:x' if group else 'x'
-            for ref in (f'{full_ns}::{local}', f'{full_ns}::x', local, 'x'):
-                tasks = {'X': {'name': 'x', 'group': group, 'params': [], 'inputs': [], 'data': 'json'},
-                         'D': {'name': 'd', 'group': None, 'params': [], 'inputs': [{'how': 'name', 'ref': ref}], 'data': 'json'}}
-                cfgs = {'pipe': {'medium': 'json', 'tasks': ['X', 'D'], 'values': {}}}
-                prev = 'pipe'
-                for i, ns in enumerate(reversed(ns_path)):
-                    cfgs[f'w{i}'] = {'medium': 'json', 'tasks': [], 'values': {}, 'uses': [{'config': prev, 'as': ns}]}
-                    prev = f'w{i}'
-                out.append(({'name': 'nested-names', 'tasks': tasks, 'configs': cfgs, 'root': prev, 'variants': {'v': []}}, full_ns, local, ref))
+        # plain names: 'x'; names that textually begin with the (outermost / innermost) namespace name or equal it - a reference is
+        # qualified by its '::' components, never by a textual prefix (seed C10_o)
+        for base in ('x', f'{ns_path[0]}x', f'{ns_path[-1]}umbers', ns_path[0]):
+            for group in (None, 'g', 'g:h'):
+                local = f'{group}:{base}' if group else base
+                for ref in dict.fromkeys((f'{full_ns}::{local}', f'{full_ns}::{base}', local, base)):
+                    tasks = {'X': {'name': base, 'group': group, 'params': [], 'inputs': [], 'data': 'json'},
+                             'D': {'name': 'd', 'group': None, 'params': [], 'inputs': [{'how': 'name', 'ref': ref}], 'data': 'json'}}
+                    cfgs = {'pipe': {'medium': 'json', 'tasks': ['X', 'D'], 'values': {}}}
+                    prev = 'pipe'
+                    for i, ns in enumerate(reversed(ns_path)):
+                        cfgs[f'w{i}'] = {'medium': 'json', 'tasks': [], 'values': {}, 'uses': [{'config': prev, 'as': ns}]}
+                        prev = f'w{i}'
+                    out.append(({'name': 'nested-names', 'tasks': tasks, 'configs': cfgs, 'root': prev, 'variants': {'v': []}}, full_ns, local, ref, base))
     return out
 
 
 def check_nested():
     res = Result()
-    for desc, full_ns, local, ref in nested_worlds():
+    for desc, full_ns, local, ref, base in nested_worlds():
         root = scratch.fresh('c10n')
         w = worlds.World(desc, root)
         res.add('evaluations')
         res.add('chain_worlds')
-        case = {'kind': 'nested', 'ref': ref, 'ns': full_ns, 'local': local}
+        case = {'kind': 'nested', 'ref': ref, 'ns': full_ns, 'local': local, 'base': base}
         try:
             try:
                 ch = w.chain('v', base_dir=root + '/data')
@@ -143,7 +146,7 @@ def check_nested():
             got = [t for t in d.input_tasks.values()]
             if len(got) != 1 or got[0] is not target:
                 res.violations.append(Violation('inputs: reference resolved to another task', f'namespace {full_ns}, reference {ref!r}: {[getattr(t, "fullname", t) for t in got]}', case))
-            for q in (f'{full_ns}::{local}', f'{full_ns}::x', local, 'x'):
+            for q in dict.fromkeys((f'{full_ns}::{local}', f'{full_ns}::{base}', local, base)):
                 try:
                     ok = not (ch[q] is not target or q not in ch or d.input_tasks[q] is not target or q not in d.input_tasks)
                 except Exception:  # noqa  (a lookup that raises does not address the task either)
